@@ -78,6 +78,13 @@ def r2(ctx):
     from .common import setting_default
     d = setting_default(repo, "header_map")
     ctx.check("C08.R2", d in ("drop", "refuse"), "default|header_map", "gunicorn/config.py: Setting header_map", "header_map defaults to %r" % (d,), "default %r" % (d,))
+    # the trust list's default: the FORWARDED_ALLOW_IPS environment variable *as it is* -- defined but empty means "trust nobody"
+    # (documented), only an undefined variable falls back to loopback
+    from .common import setting_default_under
+    for envv, want in (({}, "127.0.0.1,::1"), ({"FORWARDED_ALLOW_IPS": ""}, ""), ({"FORWARDED_ALLOW_IPS": "10.1.2.3"}, "10.1.2.3"), ({"FORWARDED_ALLOW_IPS": "*"}, "*")):
+        got = setting_default_under(repo, "forwarded_allow_ips", envv)
+        ctx.check("C08.R1", got == want, "default|forwarded_allow_ips|%s" % sorted(envv.items()), "gunicorn/config.py: Setting forwarded_allow_ips",
+                  "with environment %r the default of forwarded_allow_ips is %r, required %r (an empty FORWARDED_ALLOW_IPS means no peer is trusted; it must not fall back to loopback)" % (envv, got, want), "default %r" % (want,))
 
 
 def r3(ctx):
